@@ -81,6 +81,10 @@ def feature_tag(case):
         t.append("TPL0")
     if c.get("enc_mode", 8) <= 4:
         t.append("SB128")
+    if c.get("encoder_bit_depth", 8) == 10:
+        t.append("10B")
+    if c.get("source_width", 0) % 8 or c.get("source_height", 0) % 8:
+        t.append("NM8")      # a picture dimension that is not a multiple of 8 (the library pads internally)
     hl = c.get("hierarchical_levels", 4)
     if 1 <= hl <= 3 and c.get("intra_period_length", -2) + 1 == (1 << hl) and c.get("logical_processors", 0) in (1, 2) and c.get("enable_tpl_la", 1) != 0 \
             and isinstance(case, dict) and case.get("frames", 0) > 16:
